@@ -786,7 +786,7 @@ def c09_case(ctx, book, case_seed):
     if not pool:
         return
     F = rng.choice(pool)
-    kind = rng.choice(['nosuch', 'failk-always', 'failk-once', 'nosuch-keyword', 'failname'])
+    kind = rng.choice(['nosuch', 'failk-always', 'failk-once', 'nosuch-keyword', 'failname', 'nosuch-constant'])
     case = {'kind': 'real-book', 'book': book, 'case_seed': case_seed, 'failing': F, 'fault': kind}
     related = set(desc[F]) | {F}
     dependants = [a for a in desc[F] if ':' not in a and a in info['text'] and a not in unstable]
